@@ -294,11 +294,44 @@ func TestC07(t *testing.T) {
 			parts.apxStart = parts.authStart + 16
 		}
 
+		// reseal re-seals the genuine ping under the attacker's key, still claiming X
+		// as the source (optionally with the attacker's key in the ping header).
+		genuineData := append([]byte(nil), data...)
+		reseal := func(ownKey bool, aheadMs int) []byte {
+			msg := genuineData[parts.msgStart:parts.authStart]
+			hdr, _, body, ok := c07PingParts(msg)
+			if !ok {
+				return nil
+			}
+			if ownKey {
+				hdr["k"] = []byte(attackerID.Addr.PublicKey)
+				delete(hdr, "e")
+				if attackerID.Addr.Easing != 0 {
+					hdr["e"] = attackerID.Addr.Easing
+				}
+			}
+			b := frame.NewFrameBuilder()
+			f, err := b.NewFrameV1(X.IP(), V.IP(), mt, nil, c07PingMsg(hdr, body), genuineData[parts.apxStart:])
+			if err != nil {
+				return nil
+			}
+			defer f.ReturnToPool()
+			f.SetTTL(0)
+			f.SetSequenceTime(time.Now().Add(time.Duration(aheadMs) * time.Millisecond))
+			_ = f.SignRaw(attackerID.Addr.PrivateKey)
+			f.SetTTL(20)
+			d, _ := f.FrameDataWithMargins(0, 0)
+			return append([]byte(nil), d...)
+		}
+		resealMs := 0
+		plantsKey := false // the forgery carries the attacker's key for X's address
+
 		// Choose the alteration.
 		alt := c.Weighted("alter", 4, 10, 4, 3, 3, 4, 4)
 		altName := "genuine"
 		authentic := true // whether the delivered message is still authentic as X's
 		replay := false
+		between := 0
 		switch alt {
 		case 0:
 		case 1: // byte flip
@@ -352,32 +385,18 @@ func TestC07(t *testing.T) {
 					if len(nm) == len(msg) {
 						copy(data[parts.msgStart:], nm)
 						altName, authentic = "header-key-swapped", false
+						plantsKey = true
 					}
 				}
 			}
 		case 5: // re-sealed by the attacker with its own key, claiming X
 			if !encrypted {
-				msg := data[parts.msgStart:parts.authStart]
-				if hdr, _, body, ok := c07PingParts(msg); ok {
-					if c.Bool("reseal.ownkey-in-header") {
-						hdr["k"] = []byte(attackerID.Addr.PublicKey)
-						delete(hdr, "e")
-						if attackerID.Addr.Easing != 0 {
-							hdr["e"] = attackerID.Addr.Easing
-						}
-					}
-					b := frame.NewFrameBuilder()
-					f, err := b.NewFrameV1(X.IP(), V.IP(), mt, nil, c07PingMsg(hdr, body), data[parts.apxStart:])
-					if err == nil {
-						f.SetTTL(0)
-						f.SetSequenceTime(time.Now().Add(time.Duration(c.Int("reseal.ms", 1, 5000)) * time.Millisecond))
-						_ = f.SignRaw(attackerID.Addr.PrivateKey)
-						f.SetTTL(20)
-						d, _ := f.FrameDataWithMargins(0, 0)
-						data = append([]byte(nil), d...)
-						f.ReturnToPool()
-						altName, authentic = "re-sealed-by-attacker", false
-					}
+				ownKey := c.Bool("reseal.ownkey-in-header")
+				resealMs = c.Int("reseal.ms", 1, 5000)
+				if d := reseal(ownKey, resealMs); d != nil {
+					data = d
+					altName, authentic = "re-sealed-by-attacker", false
+					plantsKey = ownKey
 				}
 			}
 		case 6:
@@ -393,9 +412,23 @@ func TestC07(t *testing.T) {
 				c.Fatalf("panic on genuine %s: %v", kindName, ms.vn.Panics)
 			}
 			env.deliverAll()
-			for k, n := 0, c.Int("replay.between", 0, 3); k < n; k++ {
-				_, _, _ = X.Rtr.PingPong.Send(V.IP(), false, 0)
+			for k, n := 0, c.Int("replay.between", 0, 4); k < n; k++ {
+				// Arbitrary genuine traffic of X in between (each kind changes what it
+				// may change; none of it makes the old ping fresh again).
+				switch core.OneOf(c, "replay.between.kind", "pong", "pong", "error-no-keys", "going-down", "announce", "error-generic") {
+				case "pong":
+					_, _, _ = X.Rtr.PingPong.Send(V.IP(), false, 0)
+				case "error-no-keys":
+					_ = X.Rtr.ErrorPing.SendNoEncryptionKeys(V.IP())
+				case "going-down":
+					_ = X.Rtr.DisconnectPing.Send(true, nil)
+				case "announce":
+					_ = X.Rtr.VerifAnnounce()
+				default:
+					_ = X.Rtr.ErrorPing.SendGeneric(V.IP(), "between")
+				}
 				env.deliverAll()
+				between++
 			}
 		}
 
@@ -413,7 +446,7 @@ func TestC07(t *testing.T) {
 
 		stillForV := netip.AddrFrom16([16]byte(data[32:48])) == V.IP() || netip.AddrFrom16([16]byte(data[32:48])).String() == "fd00::4"
 		switch {
-		case replay && kindName == "announce":
+		case replay && kindName == "announce" && between == 0:
 			// Exact duplicate of the newest announcement: tolerated, table unchanged modulo expiry.
 			if d := c07DropBlankRecords(diffSnap(before, after, false)); len(d) > 0 {
 				c.Fatalf("replayed announcement changed the victim's state: %v", d)
@@ -430,6 +463,21 @@ func TestC07(t *testing.T) {
 				}
 			}
 			c.Class("attack-rejected/" + altName)
+			if plantsKey && c.Chance("followup", 2, 3) {
+				// A second forged ping of the same forged identity: the rejected first
+				// one must not have left anything behind that makes this one pass.
+				if d2 := reseal(true, resealMs+c.Int("followup.ms", 1, 2000)); d2 != nil {
+					res2 := ms.vn.Inject(V, link, d2)
+					if res2.Panicked {
+						c.Fatalf("%s/%s follow-up panicked a worker of the victim: %v", kindName, altName, ms.vn.Panics)
+					}
+					after2 := snapshotNode(V, env.all)
+					if d := c07DropBlankRecords(diffSnap(before, after2, true)); len(d) > 0 {
+						c.Fatalf("after a rejected %s ping altered by %q, a second ping sealed with the attacker's key for the same source changed the victim's state: %v", kindName, altName, d)
+					}
+					c.Class("attack-followup-rejected/" + altName)
+				}
+			}
 		default:
 			// Authentic: may change only what this kind may change, and only about X.
 			for _, d := range diff {
